@@ -532,3 +532,536 @@ example : KeysUnique e0 ∧ VertsDim 2 e0 ∧ PairSep e0 ∧ e0.idx = none ∧ 0
   simp [KeysUnique, VertsDim, PairSep, e0]
 
 end DM.C09
+
+/-! ## 10. the extended machine: coordinates that cannot be keyed (`DM.DupCache.Keyed`)
+
+Everything below holds for EVERY predicate `keyable : Pt → Bool`.
+
+ * `stepK_consistent` / `stepK_keysUnique` / `runK_*` / `reachableK_consistent`: the invariant
+   `ConsistentK` (no grid, or every live vertex is in the grid and keyable) and `KeysUnique` are
+   preserved by every operation;
+ * `consistentK_query_eq_scan`, `reachableK_query_eq_scan`: the duplicate check with the two
+   conservative fallbacks is transparent in every reachable state, for every query;
+ * `stepK_pairSep`, `reachableK_pairSep`: checked insertions keep the live vertices separated;
+ * `stepK_all_keyable` / `isDupK_all_keyable`: with `keyable = fun _ => true` the extended machine
+   IS the original one;
+ * the two-site defect (`stepW`, `isDupSkip`): `skip_witness`, `skip_inserts_duplicate`,
+   `skip_insert_alone_ok`, `skip_query_alone_ok`, and the boundary witnesses showing that each site
+   alone is not correct in general either;
+ * non-vacuity examples at the end.
+-/
+namespace DM.C09
+
+open DM.DupCache DM.DupAux DM.DupCache.Keyed
+
+/-! ### 10.1 invariants -/
+
+theorem consistentK_consistent {keyable : Pt → Bool} {s : St} (h : ConsistentK keyable s) :
+    Consistent s := by
+  obtain ⟨c, verts, idx⟩ := s
+  cases idx with
+  | none => simp [Consistent]
+  | some es => exact h.1
+
+theorem stepK_c (keyable : Pt → Bool) (s : St) (op : Op) : (stepK keyable s op).c = s.c := by
+  cases op <;> simp only [stepK] <;> (repeat' split) <;> rfl
+
+theorem runK_c (keyable : Pt → Bool) (s : St) (ops : List Op) : (runK keyable s ops).c = s.c := by
+  induction ops generalizing s with
+  | nil => rfl
+  | cons op ops ih => simp only [runK, List.foldl_cons] at ih ⊢; rw [ih, stepK_c]
+
+theorem stepK_consistent (keyable : Pt → Bool) (s : St) (op : Op) (h : ConsistentK keyable s) :
+    ConsistentK keyable (stepK keyable s op) := by
+  obtain ⟨c, verts, idx⟩ := s
+  cases op with
+  | seed =>
+    cases idx with
+    | none =>
+      simp only [stepK]
+      split
+      · rename_i hall
+        simp only [ConsistentK]
+        exact ⟨fun v hv => hv, fun v hv => List.all_eq_true.1 hall v hv⟩
+      · simp [ConsistentK]
+    | some es => exact h
+  | insert k p =>
+    simp only [stepK]
+    split
+    · exact h
+    · split
+      · rename_i hk
+        cases idx with
+        | none => simp [ConsistentK]
+        | some es =>
+          simp only [ConsistentK, Option.map_some, List.mem_cons] at h ⊢
+          refine ⟨?_, ?_⟩
+          · rintro v (rfl | hv)
+            · exact Or.inl rfl
+            · exact Or.inr (h.1 v hv)
+          · rintro v (rfl | hv)
+            · exact hk
+            · exact h.2 v hv
+      · simp [ConsistentK]
+  | remove k =>
+    cases idx with
+    | none => simp [stepK, ConsistentK]
+    | some es =>
+      simp only [stepK, ConsistentK, List.mem_filter] at h ⊢
+      exact ⟨fun v hv => h.1 v hv.1, fun v hv => h.2 v hv.1⟩
+  | editInsert k p =>
+    simp only [stepK]
+    split
+    · exact h
+    · simp [ConsistentK]
+  | editRemove k => simp [stepK, ConsistentK]
+  | dropIndex => simp [stepK, ConsistentK]
+  | clone => exact h
+  | rebuild b =>
+    -- the grid (if any) is re-keyed from the rebuilt vertex set; the coordinates are unchanged, so
+    -- every renumbered vertex is still keyable
+    cases idx with
+    | none => simp [stepK, ConsistentK]
+    | some es =>
+      simp only [stepK, ConsistentK, Option.map_some] at h ⊢
+      refine ⟨fun v hv => hv, ?_⟩
+      intro v hv
+      obtain ⟨w, hw, hw'⟩ := exists_of_mem_rekey hv
+      rw [← hw']
+      exact h.2 w hw
+
+theorem stepK_keysUnique (keyable : Pt → Bool) (s : St) (op : Op) (h : KeysUnique s) :
+    KeysUnique (stepK keyable s op) := by
+  obtain ⟨c, verts, idx⟩ := s
+  simp only [KeysUnique] at h
+  cases op with
+  | seed =>
+    cases idx with
+    | none => simp only [stepK]; split <;> exact h
+    | some es => exact h
+  | insert k p =>
+    simp only [stepK]
+    split
+    · exact h
+    · rename_i hn
+      simp only [Bool.or_eq_true, not_or] at hn
+      split <;>
+      · simp only [KeysUnique, List.map_cons, List.nodup_cons]
+        exact ⟨not_mem_keys_of_any_eq_false hn.2, h⟩
+  | remove k => exact nodup_keys_filter _ h
+  | editInsert k p =>
+    simp only [stepK]
+    split
+    · exact h
+    · rename_i hn
+      simp only [KeysUnique, List.map_cons, List.nodup_cons]
+      exact ⟨not_mem_keys_of_any_eq_false hn, h⟩
+  | editRemove k => exact nodup_keys_filter _ h
+  | dropIndex => exact h
+  | clone => exact h
+  | rebuild b => exact rekey_keys_nodup b verts
+
+theorem runK_consistent (keyable : Pt → Bool) (s : St) (ops : List Op)
+    (h : ConsistentK keyable s) : ConsistentK keyable (runK keyable s ops) := by
+  induction ops generalizing s with
+  | nil => exact h
+  | cons op ops ih => exact ih (stepK keyable s op) (stepK_consistent keyable s op h)
+
+theorem runK_keysUnique (keyable : Pt → Bool) (s : St) (ops : List Op) (h : KeysUnique s) :
+    KeysUnique (runK keyable s ops) := by
+  induction ops generalizing s with
+  | nil => exact h
+  | cons op ops ih => exact ih (stepK keyable s op) (stepK_keysUnique keyable s op h)
+
+/-- every history of the extended machine that starts without a grid is consistent -/
+theorem reachableK_consistent (keyable : Pt → Bool) (s0 : St) (ops : List Op)
+    (h0 : s0.idx = none) : ConsistentK keyable (runK keyable s0 ops) := by
+  apply runK_consistent
+  simp [ConsistentK, h0]
+
+theorem stepK_vertsDim (keyable : Pt → Bool) (d : Nat) (s : St) (op : Op) (hop : OpDim d op)
+    (h : VertsDim d s) : VertsDim d (stepK keyable s op) := by
+  obtain ⟨c, verts, idx⟩ := s
+  simp only [VertsDim] at h
+  cases op with
+  | seed =>
+    cases idx with
+    | none => simp only [stepK]; split <;> exact h
+    | some es => exact h
+  | insert k p =>
+    simp only [stepK]
+    split
+    · exact h
+    · split <;>
+      · simp only [VertsDim, List.mem_cons]
+        rintro v (rfl | hv)
+        · exact hop
+        · exact h v hv
+  | remove k =>
+    simp only [stepK, VertsDim, List.mem_filter]
+    exact fun v hv => h v hv.1
+  | editInsert k p =>
+    simp only [stepK]
+    split
+    · exact h
+    · simp only [VertsDim, List.mem_cons]
+      rintro v (rfl | hv)
+      · exact hop
+      · exact h v hv
+  | editRemove k =>
+    simp only [stepK, VertsDim, List.mem_filter]
+    exact fun v hv => h v hv.1
+  | dropIndex => exact h
+  | clone => exact h
+  | rebuild b =>
+    simp only [stepK, VertsDim]
+    intro v hv
+    obtain ⟨w, hw, hw'⟩ := exists_of_mem_rekey hv
+    rw [← hw']
+    exact h w hw
+
+theorem runK_vertsDim (keyable : Pt → Bool) (d : Nat) (s : St) (ops : List Op)
+    (hops : ∀ op ∈ ops, OpDim d op) (h : VertsDim d s) : VertsDim d (runK keyable s ops) := by
+  induction ops generalizing s with
+  | nil => exact h
+  | cons op ops ih =>
+    exact ih (stepK keyable s op) (fun o ho => hops o (by simp [ho]))
+      (stepK_vertsDim keyable d s op (hops op (by simp)) h)
+
+/-! ### 10.2 the fallbacks make un-keyable coordinates invisible -/
+
+/-- in a consistent state with unique keys the duplicate check of the extended machine and the
+linear scan agree on every query of the right dimension, keyable or not -/
+theorem consistentK_query_eq_scan (keyable : Pt → Bool) (s : St) (d : Nat) (q : Pt) (hc : 0 < s.c)
+    (hku : KeysUnique s) (hcons : ConsistentK keyable s) (hdim : ∀ v ∈ s.verts, v.2.length = d)
+    (hq : q.length = d) : isDupK keyable s q = scanDup s q := by
+  have h := consistent_query_eq_scan s d q hc hku (consistentK_consistent hcons) hdim hq
+  obtain ⟨c, verts, idx⟩ := s
+  cases idx with
+  | none => rfl
+  | some es =>
+    simp only [isDupK]
+    split
+    · exact h
+    · rfl
+
+theorem reachableK_query_eq_scan (keyable : Pt → Bool) (s0 : St) (ops : List Op) (d : Nat) (q : Pt)
+    (h0 : s0.idx = none) (hc : 0 < s0.c) (hku : KeysUnique s0) (hdim : VertsDim d s0)
+    (hops : ∀ op ∈ ops, OpDim d op) (hq : q.length = d) :
+    isDupK keyable (runK keyable s0 ops) q = scanDup (runK keyable s0 ops) q :=
+  consistentK_query_eq_scan keyable (runK keyable s0 ops) d q (by rw [runK_c]; exact hc)
+    (runK_keysUnique keyable s0 ops hku) (reachableK_consistent keyable s0 ops h0)
+    (runK_vertsDim keyable d s0 ops hops hdim) hq
+
+/-- in every reachable state that HAS a grid, every live vertex is keyable and has its entry -/
+theorem reachableK_grid_all_keyable (keyable : Pt → Bool) (s0 : St) (ops : List Op)
+    (h0 : s0.idx = none) (es : List (Nat × Pt)) (hes : (runK keyable s0 ops).idx = some es) :
+    ∀ v ∈ (runK keyable s0 ops).verts, v ∈ es ∧ keyable v.2 = true := by
+  have h := reachableK_consistent keyable s0 ops h0
+  generalize runK keyable s0 ops = s at h hes
+  obtain ⟨c, verts, idx⟩ := s
+  simp only at hes
+  subst hes
+  exact fun v hv => ⟨h.1 v hv, h.2 v hv⟩
+
+/-- a refused point is refused because of a LIVE vertex within tolerance, in every state -/
+theorem never_refused_for_removedK (keyable : Pt → Bool) (s : St) (q : Pt)
+    (h : isDupK keyable s q = true) : ∃ v ∈ s.verts, dist2 v.2 q < s.c * s.c := by
+  obtain ⟨c, verts, idx⟩ := s
+  cases idx with
+  | none => exact never_refused_for_removed ⟨c, verts, none⟩ q h
+  | some es =>
+    simp only [isDupK] at h
+    split at h
+    · exact never_refused_for_removed ⟨c, verts, some es⟩ q h
+    · exact never_refused_for_removed ⟨c, verts, none⟩ q h
+
+/-! ### 10.3 the extended machine is the original one when every point is keyable -/
+
+theorem isDupK_all_keyable (s : St) (q : Pt) : isDupK (fun _ => true) s q = isDup s q := by
+  obtain ⟨c, verts, idx⟩ := s
+  cases idx <;> rfl
+
+theorem stepK_all_keyable (s : St) (op : Op) : stepK (fun _ => true) s op = step s op := by
+  obtain ⟨c, verts, idx⟩ := s
+  cases op with
+  | seed => cases idx <;> simp [stepK, step]
+  | insert k p => simp only [stepK, step, isDupK_all_keyable, if_true]
+  | _ => rfl
+
+theorem runK_all_keyable (s : St) (ops : List Op) : runK (fun _ => true) s ops = run s ops := by
+  induction ops generalizing s with
+  | nil => rfl
+  | cons op ops ih => simp only [runK, run, List.foldl_cons] at ih ⊢; rw [stepK_all_keyable, ih]
+
+/-! ### 10.4 checked insertion keeps the live vertices pairwise separated -/
+
+theorem stepK_insert_pairSep (keyable : Pt → Bool) (s : St) (k : Nat) (p : Pt)
+    (heq : isDupK keyable s p = scanDup s p) (h : PairSep s) :
+    PairSep (stepK keyable s (.insert k p)) := by
+  obtain ⟨c, verts, idx⟩ := s
+  simp only [stepK]
+  split
+  · exact h
+  · rename_i hn
+    simp only [Bool.or_eq_true, not_or] at hn
+    have hscan : ∀ v ∈ verts, ¬ (dist2 v.2 p < c * c) := by
+      have h1 := hn.1
+      rw [heq] at h1
+      simpa [scanDup] using h1
+    split <;>
+    · simp only [PairSep, List.mem_cons] at h ⊢
+      rintro a (rfl | ha) b (rfl | hb) hab
+      · exact absurd rfl hab
+      · rw [DM.DupAux.dist2_comm]; exact hscan b hb
+      · exact hscan a ha
+      · exact h a ha b hb hab
+
+theorem stepK_seed_pairSep (keyable : Pt → Bool) (s : St) (h : PairSep s) :
+    PairSep (stepK keyable s .seed) := by
+  obtain ⟨c, verts, idx⟩ := s
+  cases idx with
+  | none => simp only [stepK]; split <;> exact h
+  | some es => exact h
+
+theorem stepK_pairSep (keyable : Pt → Bool) (s : St) (op : Op) (hop : Checked op)
+    (heq : ∀ k p, op = .insert k p → isDupK keyable s p = scanDup s p)
+    (hrb : ∀ b, op = .rebuild b → KeysUnique s) (h : PairSep s) :
+    PairSep (stepK keyable s op) := by
+  cases op with
+  | seed => exact stepK_seed_pairSep keyable s h
+  | insert k p => exact stepK_insert_pairSep keyable s k p (heq k p rfl) h
+  | remove k => exact step_remove_pairSep s k h
+  | editInsert k p => exact absurd hop (by simp [Checked])
+  | editRemove k => exact step_editRemove_pairSep s k h
+  | dropIndex => exact h
+  | clone => exact h
+  | rebuild b => exact step_rebuild_pairSep s b (hrb b rfl) h
+
+/-- from a grid-less, pairwise separated start, every history of checked operations (no
+`editInsert`) of the extended machine keeps the live vertices pairwise separated — whatever the
+predicate `keyable` is -/
+theorem reachableK_pairSep (keyable : Pt → Bool) (s0 : St) (ops : List Op) (d : Nat)
+    (h0 : s0.idx = none) (hc : 0 < s0.c) (hku : KeysUnique s0) (hdim : VertsDim d s0)
+    (hops : ∀ op ∈ ops, OpDim d op) (hchk : ∀ op ∈ ops, Checked op) (hsep : PairSep s0) :
+    PairSep (runK keyable s0 ops) := by
+  have hcons0 : ConsistentK keyable s0 := by simp [ConsistentK, h0]
+  clear h0
+  induction ops generalizing s0 with
+  | nil => exact hsep
+  | cons op ops ih =>
+    have hop : OpDim d op := hops op (by simp)
+    refine ih (stepK keyable s0 op) (by rw [stepK_c]; exact hc) (stepK_keysUnique keyable s0 op hku)
+      (stepK_vertsDim keyable d s0 op hop hdim) (fun o ho => hops o (by simp [ho]))
+      (fun o ho => hchk o (by simp [ho])) ?_ (stepK_consistent keyable s0 op hcons0)
+    apply stepK_pairSep keyable s0 op (hchk op (by simp)) _ (fun _ _ => hku) hsep
+    rintro k p rfl
+    exact consistentK_query_eq_scan keyable s0 d p hc hku hcons0 hdim hop
+
+end DM.C09
+
+/-! ## 11. the two-site defect of the un-keyable handling (negative results) and non-vacuity -/
+namespace DM.C09
+
+open DM.DupCache DM.DupAux DM.DupCache.Keyed
+
+/-! ### 11.1 the defective machines -/
+
+/-- defect at the QUERY site: a query at an un-keyable point is answered from the grid like any
+other query (no fallback to the scan); `keyable` is not consulted at all -/
+def isDupSkip (s : St) (q : Pt) : Bool :=
+  match s.idx with
+  | some es => gridDup s es q
+  | none => scanDup s q
+
+/-- the defective query is the query of the ORIGINAL machine, which knows nothing of keyability -/
+theorem isDupSkip_eq_isDup (s : St) (q : Pt) : isDupSkip s q = isDup s q := rfl
+
+/-- the more literal reading of the query-site defect: an un-keyable query point has no bucket, so
+a grid that is consulted for it inspects NO candidate and answers "not a duplicate" -/
+def isDupSkipNone (keyable : Pt → Bool) (s : St) (q : Pt) : Bool :=
+  match s.idx with
+  | some es => if keyable q then gridDup s es q else false
+  | none => scanDup s q
+
+/-- the machine with both sites as parameters. `skipIns = true` is the defect at the INSERTION
+site: an accepted un-keyable point leaves the grid in place WITHOUT an entry for it (and `seed`,
+which builds the grid by the same insertions, silently omits the un-keyable live vertices);
+`dup` is the duplicate check used for the refusal test. All other operations as in `stepK`. -/
+def stepW (skipIns : Bool) (dup : St → Pt → Bool) (keyable : Pt → Bool) (s : St) : Op → St
+  | .seed =>
+    if skipIns then
+      match s.idx with
+      | some _ => s
+      | none => { s with idx := some (s.verts.filter (fun v => keyable v.2)) }
+    else stepK keyable s .seed
+  | .insert k p =>
+    if dup s p || s.verts.any (·.1 == k) then s
+    else if keyable p then { s with verts := (k, p) :: s.verts, idx := s.idx.map ((k, p) :: ·) }
+    else if skipIns then { s with verts := (k, p) :: s.verts }       -- grid kept, no entry
+    else { s with verts := (k, p) :: s.verts, idx := none }
+  | op => stepK keyable s op
+
+/-- both defects: un-keyable insertions are skipped by the grid, un-keyable queries use the grid -/
+def stepSkip (keyable : Pt → Bool) (s : St) (op : Op) : St := stepW true isDupSkip keyable s op
+
+/-- with both sites faithful, `stepW` is `stepK` -/
+theorem stepW_faithful (keyable : Pt → Bool) (s : St) (op : Op) :
+    stepW false (isDupK keyable) keyable s op = stepK keyable s op := by
+  cases op <;> simp [stepW, stepK]
+
+/-! ### 11.2 a concrete history -/
+
+/-- keyable: every coordinate has absolute value below 1000 -/
+def keyW : Pt → Bool := fun p => p.all (fun x => decide (-1000 < x ∧ x < 1000))
+
+def k0 : St := { c := 10, verts := [], idx := none }
+
+/-- seed a grid, insert a keyable vertex, insert an un-keyable vertex `P = [5000]` -/
+def skipHist : List Op := [.seed, .insert 0 [0], .insert 1 [5000]]
+
+example : keyW [0] = true ∧ keyW [5000] = false := by decide
+
+/-- both defects: after inserting the un-keyable `P` the grid is still there and has no entry for
+`P`; the defective query says "not a duplicate" for `P` itself while the scan says "duplicate" -/
+theorem skip_witness :
+    let s := skipHist.foldl (stepSkip keyW) k0
+    s.verts = [(1, [5000]), (0, [0])] ∧ s.idx = some [(0, [0])] ∧
+    scanDup s [5000] = true ∧ isDupSkip s [5000] = false ∧ isDupSkipNone keyW s [5000] = false := by
+  decide
+
+/-- both defects: the invariant `ConsistentK` is what the skipped insertion broke -/
+theorem skip_breaks_consistentK : ¬ ConsistentK keyW (skipHist.foldl (stepSkip keyW) k0) := by
+  intro h
+  have h' : ∀ v ∈ [((1 : Nat), ([5000] : Pt)), (0, [0])], v ∈ [((0 : Nat), ([0] : Pt))] := h.1
+  exact absurd (h' (1, [5000]) (by simp)) (by decide)
+
+/-- both defects: `P` is inserted a second time — two live vertices at the same coordinates, the
+pairwise separation is broken; the faithful machine refuses the second insertion -/
+theorem skip_inserts_duplicate :
+    let s := (skipHist ++ [Op.insert 2 [5000]]).foldl (stepSkip keyW) k0
+    s.verts = [(2, [5000]), (1, [5000]), (0, [0])] ∧ ¬ PairSep s ∧
+    (runK keyW k0 (skipHist ++ [.insert 2 [5000]])).verts = [(1, [5000]), (0, [0])] := by
+  refine ⟨by decide, ?_, by decide⟩
+  intro h
+  exact h (2, [5000]) (by decide) (1, [5000]) (by decide) (by decide) (by decide)
+
+/-- only the INSERTION site is defective (the query is the faithful `isDupK`): the grid is kept
+without an entry for `P`, but the query at `P` is un-keyable and falls back to the scan, which
+finds `P`; the second insertion is refused -/
+theorem skip_insert_alone_ok :
+    let s := skipHist.foldl (stepW true (isDupK keyW) keyW) k0
+    s.idx = some [(0, [0])] ∧ scanDup s [5000] = true ∧ isDupK keyW s [5000] = true ∧
+    ((skipHist ++ [Op.insert 2 [5000]]).foldl (stepW true (isDupK keyW) keyW) k0).verts
+      = [(1, [5000]), (0, [0])] := by decide
+
+/-- only the QUERY site is defective (the step is the faithful one apart from its refusal test):
+inserting `P` dropped the grid, so the defective query has no grid to consult and the scan
+answers; the second insertion is refused. The same holds for the literal reading of the defect. -/
+theorem skip_query_alone_ok :
+    let s := skipHist.foldl (stepW false isDupSkip keyW) k0
+    s.idx = none ∧ scanDup s [5000] = true ∧ isDupSkip s [5000] = true ∧
+    ((skipHist ++ [Op.insert 2 [5000]]).foldl (stepW false isDupSkip keyW) k0).verts
+      = [(1, [5000]), (0, [0])] ∧
+    ((skipHist ++ [Op.insert 2 [5000]]).foldl (stepW false (isDupSkipNone keyW) keyW) k0).verts
+      = [(1, [5000]), (0, [0])] := by decide
+
+/-- the faithful machine on the same history: the grid is dropped, the duplicate is reported -/
+theorem skip_fixed_witness :
+    let s := runK keyW k0 skipHist
+    s.idx = none ∧ scanDup s [5000] = true ∧ isDupK keyW s [5000] = true := by decide
+
+/-- the insertion-site defect also reaches `seed`: an un-keyable vertex that entered through the
+Edit API is omitted by the seeded grid, and the defective query then misses it; the faithful `seed`
+builds no grid -/
+theorem skip_seed_witness :
+    let h : List Op := [.editInsert 0 [5000], .seed]
+    let s := h.foldl (stepSkip keyW) k0
+    s.idx = some [] ∧ scanDup s [5000] = true ∧ isDupSkip s [5000] = false ∧
+    (runK keyW k0 h).idx = none ∧ isDupK keyW (runK keyW k0 h) [5000] = true := by decide
+
+/-! ### 11.3 each site alone is NOT correct in general (the boundary of keyability)
+
+`skip_insert_alone_ok` / `skip_query_alone_ok` are statements about ONE history. At the boundary
+between keyable and un-keyable coordinates a single defective site is already visible. -/
+
+/-- insertion site alone: the un-keyable vertex `[1000]` has no grid entry; the KEYABLE query
+`[995]` (within tolerance of it) is answered by the grid, which misses it -/
+theorem skip_insert_alone_boundary_witness :
+    let h : List Op := [.seed, .insert 0 [0], .insert 1 [1000]]
+    let s := h.foldl (stepW true (isDupK keyW) keyW) k0
+    keyW [995] = true ∧ scanDup s [995] = true ∧ isDupK keyW s [995] = false ∧
+    ((h ++ [Op.insert 2 [995]]).foldl (stepW true (isDupK keyW) keyW) k0).verts
+      = [(2, [995]), (1, [1000]), (0, [0])] ∧
+    (runK keyW k0 (h ++ [.insert 2 [995]])).verts = [(1, [1000]), (0, [0])] := by decide
+
+/-- query site alone, literal reading (an un-keyable query inspects no candidate): the grid holds
+the keyable vertex `[995]`; the un-keyable query `[1000]` within tolerance of it is answered "not a
+duplicate" and is inserted. (With `isDupSkip`, whose grid query computes the bucket of the
+un-keyable point exactly, the model cannot show this: see `query_alone_gridDup_transparent`.) -/
+theorem skip_query_alone_boundary_witness :
+    let h : List Op := [.seed, .insert 0 [995]]
+    let s := h.foldl (stepW false (isDupSkipNone keyW) keyW) k0
+    s.idx = some [(0, [995])] ∧ scanDup s [1000] = true ∧ isDupSkipNone keyW s [1000] = false ∧
+    ((h ++ [Op.insert 1 [1000]]).foldl (stepW false (isDupSkipNone keyW) keyW) k0).verts
+      = [(1, [1000]), (0, [995])] ∧
+    (runK keyW k0 (h ++ [.insert 1 [1000]])).verts = [(0, [995])] := by decide
+
+/-- in a `ConsistentK` state the query `isDupSkip` (exact integer buckets also for un-keyable
+points) agrees with the scan: in THIS model the query-site defect is invisible as long as the
+insertion site is faithful. The real grid cannot compute the bucket of an un-keyable point exactly,
+which is what `isDupSkipNone` stands for. -/
+theorem query_alone_gridDup_transparent (keyable : Pt → Bool) (s : St) (d : Nat) (q : Pt)
+    (hc : 0 < s.c) (hku : KeysUnique s) (hcons : ConsistentK keyable s)
+    (hdim : ∀ v ∈ s.verts, v.2.length = d) (hq : q.length = d) : isDupSkip s q = scanDup s q :=
+  consistent_query_eq_scan s d q hc hku (consistentK_consistent hcons) hdim hq
+
+/-! ### 11.4 non-vacuity: a 2-D history with a grid, un-keyable insertions and re-seeding -/
+
+/-- seed, two inserts, a remove, an UN-KEYABLE insert (drops the grid), a seed that must not build
+a grid (an un-keyable vertex is live), its removal, a seed that builds the grid again, an insert -/
+def kHist : List Op :=
+  [.seed, .insert 0 [0, 0], .insert 1 [50, 50], .remove 1, .insert 2 [5000, 0], .seed, .remove 2,
+   .seed, .insert 3 [53, 46]]
+
+/-- the un-keyable insertion is accepted and drops the grid; `seed` does not bring it back while
+the un-keyable vertex is live -/
+example : (runK keyW k0 (kHist.take 5)).verts = [(2, [5000, 0]), (0, [0, 0])] := by decide
+example : (runK keyW k0 (kHist.take 4)).idx = some [(1, [50, 50]), (0, [0, 0])] := by decide
+example : (runK keyW k0 (kHist.take 5)).idx = none := by decide
+example : (runK keyW k0 (kHist.take 6)).idx = none := by decide
+/-- an un-keyable duplicate of the un-keyable vertex is refused (scan fallback) -/
+example : isDupK keyW (runK keyW k0 (kHist.take 6)) [5003, -4] = true := by decide
+example : (runK keyW k0 (kHist.take 6 ++ [.insert 9 [5003, -4]])).verts
+    = [(2, [5000, 0]), (0, [0, 0])] := by decide
+
+/-- the final state HAS a grid, holding exactly the live vertices (all keyable) -/
+example : (runK keyW k0 kHist).idx = some [(3, [53, 46]), (0, [0, 0])] := by decide
+example : (runK keyW k0 kHist).verts = [(3, [53, 46]), (0, [0, 0])] := by decide
+/-- keyable queries are answered by the grid, un-keyable ones by the scan; both agree with it -/
+example : isDupK keyW (runK keyW k0 kHist) [50, 50] = true ∧
+    scanDup (runK keyW k0 kHist) [50, 50] = true := by decide
+example : keyW [1002, 46] = false ∧ isDupK keyW (runK keyW k0 kHist) [1002, 46] = false ∧
+    scanDup (runK keyW k0 kHist) [1002, 46] = false := by decide
+/-- an un-keyable insertion into the state WITH a grid: accepted, grid dropped, then refused -/
+example : (runK keyW k0 (kHist ++ [.insert 4 [0, -7000]])).idx = none := by decide
+example : (runK keyW k0 (kHist ++ [.insert 4 [0, -7000], .insert 5 [1, -7001]])).verts
+    = [(4, [0, -7000]), (3, [53, 46]), (0, [0, 0])] := by decide
+
+/-- the hypotheses of `reachableK_query_eq_scan` / `reachableK_pairSep` hold for this history -/
+example : ∀ op ∈ kHist ++ [.insert 4 [0, -7000], .insert 5 [1, -7001]], OpDim 2 op ∧ Checked op := by
+  simp [kHist, OpDim, Checked]
+example : KeysUnique k0 ∧ VertsDim 2 k0 ∧ PairSep k0 ∧ k0.idx = none ∧ 0 < k0.c := by
+  simp [KeysUnique, VertsDim, PairSep, k0]
+
+/-- the theorems instantiated at this history -/
+example (q : Pt) (hq : q.length = 2) :
+    isDupK keyW (runK keyW k0 kHist) q = scanDup (runK keyW k0 kHist) q :=
+  reachableK_query_eq_scan keyW k0 kHist 2 q rfl (by decide) (by simp [KeysUnique, k0])
+    (by simp [VertsDim, k0]) (by simp [kHist, OpDim]) hq
+example : PairSep (runK keyW k0 kHist) :=
+  reachableK_pairSep keyW k0 kHist 2 rfl (by decide) (by simp [KeysUnique, k0])
+    (by simp [VertsDim, k0]) (by simp [kHist, OpDim]) (by simp [kHist, Checked])
+    (by simp [PairSep, k0])
+
+end DM.C09
